@@ -22,6 +22,9 @@ import time
 
 import vlib
 
+# the machine is shared: keep every JVM of this check to a few GC / JIT threads (picked up by all TLC runs)
+os.environ.setdefault("JAVA_TOOL_OPTIONS", "-XX:ParallelGCThreads=2 -XX:CICompilerCount=2")
+
 CFG = """SPECIFICATION Spec
 CONSTANTS
   Handler = "{handler}"
